@@ -93,7 +93,7 @@ def runReveal (payload : String) : String × String × String :=
         -- `t'` is the tree the theorems `C20_tree` speak about; `s` is only read for the lock order
         let locks := s.trace.reverse.map (nodeId s.heap)
         let chg := !beqV t t'
-        (s!"{specPart t' (decide (depth t' ≤ depth t)) (reachable t t')} ; T {showV t'} ; X {joinOrDash locks}",
+        (s!"{specPart t' (decide (depth t' ≤ depth t)) (reachable t t')} ; T {showV t'} ; X {joinOrDash locks} U0",
          spec,
          s!"{if chg then "changed" else "same"} locks={locks.length} nodes={H.length}")
     | _ => ("BADCASE", "BADCASE", "")
